@@ -530,6 +530,11 @@ impl<H: Helper> State<'_, '_, H> {
                 self.1.delete(idx, string, dir);
             }
 
+            fn delete_around(&mut self, idx: usize, before: &str, after: &str) {
+                self.0.delete_around(idx, before, after);
+                self.1.delete_around(idx, before, after);
+            }
+
             fn stop_killing(&mut self) {
                 self.1.stop_killing()
             }
